@@ -308,6 +308,40 @@ theorem cmpKeys_missing_both_stops :
     let b : J := .obj ["b".toList] [.num (.pos 1)]
     cmpKeys ["/a".toList, "/b".toList] a b = .eq ∧ cmpKeys ["/b".toList] a b = .gt := by decide
 
+/-! ### the repaired comparator (`cmp=total`) -/
+
+/-- **Antisymmetric on all JSON values** (any types, any nesting): swapping the operands swaps the
+answer — what `cmp_json_values` as written fails (counterexamples above). -/
+theorem cmpJsonT_antisymmetric (a b : J) : cmpJsonT a b = (cmpJsonT b a).swap := cmpJsonT_swap a b
+
+/-- … hence reflexive, and so is the key comparator built from it, for every key list. -/
+theorem cmpJsonT_refl (a : J) : cmpJsonT a a = .eq := by
+  have := cmpJsonT_swap a a
+  cases h : cmpJsonT a a <;> simp [h, Ordering.swap] at this ⊢
+
+theorem cmpKeysT_antisymmetric (ks : List Str) (a b : J) : cmpKeysT ks a b = (cmpKeysT ks b a).swap :=
+  cmpKeysT_swap ks a b
+
+/-- The four pairs on which the comparator as written answers the same in both directions. -/
+theorem cmpJsonT_on_the_counterexamples :
+    (cmpJsonT .null (.num (.pos 1)) = .lt ∧ cmpJsonT (.num (.pos 1)) .null = .gt)
+    ∧ (cmpJsonT (.obj ["a".toList] [.null]) (.obj ["b".toList] [.null]) = .lt
+        ∧ cmpJsonT (.obj ["b".toList] [.null]) (.obj ["a".toList] [.null]) = .gt)
+    ∧ (cmpJsonT (.num (.pos 1)) (.num (.flt 5)) = .lt ∧ cmpJsonT (.num (.flt 5)) (.num (.pos 1)) = .gt)
+    ∧ (cmpJsonT (.num (.pos 5)) (.num (.pos (2 ^ 63))) = .lt ∧ cmpJsonT (.num (.pos (2 ^ 63))) (.num (.pos 5)) = .gt) := by
+  decide
+
+/-- Sorting with the repaired comparator is a permutation too (it is for every comparator). -/
+theorem sortSectionIdxT_perm (v : SortVariant) (sort : Option Str) (base : List J) :
+    (sortSectionIdxT v sort base).Perm (List.range base.length) := by
+  have hz : (base.zipIdx.map (·.2)) = List.range base.length := by
+    rw [List.zipIdx_map_snd]; simp [List.range_eq_range']
+  unfold sortSectionIdxT
+  simp only
+  split
+  · rw [← hz]; exact (isort_perm _ _).map _
+  · rw [isort_singleton, hz]
+
 /-! ### the request level -/
 
 /-- The status of a request with rendering parameters is decided by `parseRequest` alone (C11's
